@@ -213,21 +213,30 @@ theorem cmp_zero_same (S : IntTy) (hS : 1 ≤ S.bits) {v : Int} (hv : S.InRange 
   have hz := zero_inRange (promote S)
   exact ev_cmp (usualArith_i32 S) (promote_bits_pos S) .ge hv'.1 hv'.2 hz.1 hz.2
 
+/-- scaling the constant zero is well-formed for shifts below the digits of the type -/
+theorem scale_zero (T : IntTy) (hp : promote T = T) (hb : 1 ≤ T.bits) {j : Int} (hj : 0 < j)
+    (hk : j.toNat < T.digits) : scaleInt j 2 (T, 0) = .ok (T, 0) := by
+  have hge : j ≥ 0 := by omega
+  have hk0 : 0 < j.toNat := by omega
+  have hk' : j.toNat < (promote T).digits := by rw [hp]; exact hk
+  have h := powerValueInt_two T hk0 hk'
+  rw [hp] at h
+  have hu : usualArith T T = T := by rw [usualArith_self, hp]
+  simp only [scaleInt, hge, ite_true, h, Res.bind_ok, cBin, hu, IntTy.wrap_id hb (zero_inRange T),
+    Int.zero_mul, arith_ok hb (zero_inRange T)]
+
 theorem cmp_zero_neg (S : IntTy) (hS : 1 ≤ S.bits) {eS v : Int} (hv : S.InRange v) (he : eS < 0)
     (hok : (-eS).toNat < 31) :
     Scaled.cmp intOps .ge 2 ⟨(.int S, v), eS⟩ ⟨(.int i32, 0), 0⟩ = .ok (decide (v ≥ 0)) := by
   have hne : ¬ eS = 0 := by omega
   have hne' : ¬ (0:Int) = eS := by omega
-  have hge : (0:Int) - eS ≥ 0 := by omega
-  have hk0 : 0 < ((0:Int) - eS).toNat := by omega
-  have hk : ((0:Int) - eS).toNat < (promote i32).digits := by
-    have : (promote i32).digits = 31 := by decide
-    omega
   have hpi : promote i32 = i32 := by decide
   have hb : 1 ≤ i32.bits := by decide
-  simp only [Scaled.cmp, hne, he, ite_false, ite_true, Scaled.convert, hne', intOps, liftTV, scaleInt, hge,
-    powerValueInt_two i32 hk0 hk, Res.bind_ok, cBin, hpi, usualArith_self, IntTy.wrap_id hb (zero_inRange i32),
-    Int.zero_mul, arith_ok hb (zero_inRange i32), Res.map, convert]
+  have hd : i32.digits = 31 := by decide
+  have hsc := scale_zero i32 hpi hb (j := 0 - eS) (by omega) (by rw [hd]; omega)
+  have hw : i32.wrap 0 = 0 := IntTy.wrap_id hb (zero_inRange i32)
+  simp only [Scaled.cmp, hne, he, ite_false, ite_true, Scaled.convert, hne', intOps, liftTV, hsc,
+    Res.bind_ok, Res.pure_eq, hpi, Res.map, convert, hw]
   exact cmp_zero_same S hS hv
 
 theorem cmp_zero_pos (S : IntTy) (hS : 1 ≤ S.bits) {eS v : Int} (hv : S.InRange v) (he : 0 < eS)
@@ -257,8 +266,8 @@ theorem cmp_zero_pos (S : IntTy) (hS : 1 ≤ S.bits) {eS v : Int} (hv : S.InRang
         have := Int.mul_lt_mul_of_pos_right (show v < 0 by omega) hpp
         omega
       · intro h1; exact Int.mul_nonneg h1 (Int.le_of_lt hpp)
-    simp only [Scaled.cmp, hne, hlt, ite_false, Scaled.convert, intOps, liftTV, hsc, Res.bind_ok, Res.map, convert,
-      IntTy.wrap_id hb hr] at hc ⊢
+    simp only [Scaled.cmp, hne, hlt, ite_false, Scaled.convert, intOps, liftTV, hsc, Res.bind_ok, Res.pure_eq, Res.map,
+      convert, IntTy.wrap_id hb hr] at hc ⊢
     rw [hc]; simp only [cmpInt, hd]
   · have hs' : (promote S).signed = false := by simpa using hs
     rw [arith_unsigned hs'] at hsc
@@ -272,8 +281,8 @@ theorem cmp_zero_pos (S : IntTy) (hS : 1 ≤ S.bits) {eS v : Int} (hv : S.InRang
     have hc := ev_cmp (A := promote S) (B := i32) (usualArith_i32 (promote S)) (by rw [promote_promote]; exact hb) .ge
       (by rw [promote_promote]; exact hr.1) (by rw [promote_promote]; exact hr.2)
       (by rw [promote_promote]; exact hz.1) (by rw [promote_promote]; exact hz.2)
-    simp only [Scaled.cmp, hne, hlt, ite_false, Scaled.convert, intOps, liftTV, hsc, Res.bind_ok, Res.map, convert,
-      wrap_wrap] at hc ⊢
+    simp only [Scaled.cmp, hne, hlt, ite_false, Scaled.convert, intOps, liftTV, hsc, Res.bind_ok, Res.pure_eq, Res.map,
+      convert, wrap_wrap] at hc ⊢
     rw [hc]; simp only [cmpInt, ge_iff_le, hr0, hv0]
 
 /-- `from >= 0` evaluates to the sign test of the representation -/
@@ -290,3 +299,109 @@ theorem cmp_zero_eval (S : IntTy) (hS : 1 ≤ S.bits) {eS v : Int} (hv : S.InRan
       exact cmp_zero_neg S hS hv hn hok
     · simp only [hn, ite_false] at hok
       exact cmp_zero_pos S hS hv (by omega) hok.1 hok.2
+
+/-! ## nearest, scaled → coarser scaled -/
+
+/-- the truncating `static_cast<result>(from ± half)`: `scale<-k>` divides by `2^k` toward zero -/
+theorem down_eval (P D : IntTy) (hp : promote P = P) (hb : 1 ≤ P.bits) (eS eD : Int) (h : eS < eD)
+    (hk : (eD - eS).toNat < P.digits) {s : Int} (hs : P.InRange s) :
+    Scaled.convert intOps 2 ⟨(.int P, s), eS⟩ (.int D) eD
+      = .ok ⟨(.int D, D.wrap (s.tdiv (2^(eD - eS).toNat))), eD⟩ := by
+  have hne : ¬ eS = eD := by omega
+  have hw : PowFits P (-(eS - eD)).toNat 2 := by
+    unfold PowFits; rw [hp, pw_two]
+    have : (-(eS - eD)).toNat = (eD - eS).toNat := by congr 1; omega
+    rw [this]; exact two_pow_inRange hk
+  have hsc := scaleInt_down P hb (eS - eD) (by omega) 2 (by decide) hw s hs
+  have e : (-(eS - eD)).toNat = (eD - eS).toNat := by congr 1; omega
+  rw [hp, pw_two, e] at hsc
+  simp only [Scaled.convert, hne, ite_false, intOps, liftTV, hsc, Res.bind_ok, Res.pure_eq, Res.map, convert]
+
+/-- nearest, scaled → coarser scaled -/
+theorem nrst_eval (S D : IntTy) (eS eD : Int) (v : Int) (hS : 1 ≤ S.bits) (h : eS < eD)
+    (hkD : (eD - eS).toNat < (promote D).digits) (hkS : (eD - eS).toNat < S.digits)
+    (hv : S.InRange v) (hcmp : CmpZeroOk S eS v)
+    (hsum : (promote S).InRange (if 0 ≤ v then v + 2^((eD - eS).toNat - 1) else v - 2^((eD - eS).toNat - 1))) :
+    scaledToScaled .nrst S eS D eD v
+      = .ok (D, D.wrap ((if 0 ≤ v then v + 2^((eD - eS).toNat - 1) else v - 2^((eD - eS).toNat - 1)).tdiv
+                  (2^(eD - eS).toNat))) := by
+  have hk0 : 0 < (eD - eS).toNat := by omega
+  have hle : ¬ eD ≤ eS := by omega
+  have hkP := digits_lt_promote hS hkS
+  have hb := promote_bits_pos S
+  have hpp := promote_promote S
+  have hr' : (promote S).InRange (2^((eD - eS).toNat - 1)) := two_pow_inRange (by omega)
+  have hp := two_pow_pos ((eD - eS).toNat - 1)
+  by_cases h0 : 0 ≤ v
+  · have hd : decide (v ≥ 0) = true := by simpa using h0
+    simp only [h0, ite_true] at hsum ⊢
+    simp only [scaledToScaled, hle, ite_false, unit_eval S D eS eD h hkD, Res.bind_ok,
+      half_eval S hS hk0 hkS, cmp_zero_eval S hS hv hcmp, hd, ite_true, Res.pure_eq,
+      bias_add_eval S hS hv hr' hsum, down_eval (promote S) D hpp hb eS eD h hkP hsum]
+  · have hd : decide (v ≥ 0) = false := by simpa using h0
+    simp only [h0, ite_false] at hsum ⊢
+    -- only a signed source can be negative
+    have hsg : (promote S).signed = true := by
+      apply Decidable.byContradiction; intro hn
+      have hn' : (promote S).signed = false := by simpa using hn
+      have ⟨hSu, _⟩ := promote_unsigned hn'
+      have := hv.1; rw [IntTy.lowest_eq] at this; simp [hSu] at this; omega
+    have hlo : (promote S).lowest ≤ -(2:Int)^((eD - eS).toNat - 1) := by
+      have := (lo_hi (promote S) (promote_bits_ge32 S)).1
+      have hl : (promote S).lowest < 0 := by rw [IntTy.lowest_eq]; simp [hsg]; exact two_pow_pos _
+      have := hr'.2
+      omega
+    have hmax : -(2:Int)^((eD - eS).toNat - 1) ≤ (promote S).max := by have := hr'.2; omega
+    have hneg := ev_neg hpp hb hr'.1 hr'.2 hlo hmax
+    have hsum' : (promote S).InRange (v + -(2:Int)^((eD - eS).toNat - 1)) := by
+      rw [← Int.sub_eq_add_neg]; exact hsum
+    have hadd := bias_add_eval S hS hv ⟨hlo, hmax⟩ hsum'
+    rw [← Int.sub_eq_add_neg] at hadd
+    simp only [scaledToScaled, hle, ite_false, unit_eval S D eS eD h hkD, Res.bind_ok,
+      half_eval S hS hk0 hkS, cmp_zero_eval S hS hv hcmp, hd, Bool.false_eq_true, Res.pure_eq,
+      hneg, hadd, down_eval (promote S) D hpp hb eS eD h hkP hsum]
+
+/-! ## conversions that lose no digits -/
+
+/-- the native conversion, as `scaledToScaled` returns it -/
+def plain (S : IntTy) (eS : Int) (D : IntTy) (eD : Int) (v : Int) : Res TV :=
+  (Scaled.convert intOps 2 ⟨(.int S, v), eS⟩ (.int D) eD).map (fun r => (D, r.rep.2))
+
+theorem nat_eq_plain (S D : IntTy) (eS eD : Int) (v : Int) :
+    scaledToScaled .nat S eS D eD v = plain S eS D eD v := by
+  simp only [scaledToScaled, plain]; split <;> rfl
+
+/-- when `eD ≤ eS` every rounding mode is the native conversion -/
+theorem noloss_eq_plain (mode : RdMode) (S D : IntTy) (eS eD : Int) (v : Int) (h : eD ≤ eS) :
+    scaledToScaled mode S eS D eD v = plain S eS D eD v := by
+  simp only [scaledToScaled, plain, h, ite_true]
+
+/-- the native widening conversion multiplies by `2^(eS - eD)` in the promoted source type -/
+theorem plain_up_eval (S D : IntTy) (eS eD : Int) (v : Int) (hS : 1 ≤ S.bits) (h : eD ≤ eS)
+    (hw : eS = eD ∨ (eS - eD).toNat < (promote S).digits) (hv : S.InRange v)
+    (hfit : (promote S).InRange (v * 2^(eS - eD).toNat)) :
+    plain S eS D eD v = .ok (D, D.wrap (v * 2^(eS - eD).toNat)) := by
+  by_cases he : eS = eD
+  · subst he
+    simp only [plain, Scaled.convert, ite_true, intOps, Res.bind_ok, Res.pure_eq, Res.map, convert,
+      Int.sub_self, Int.toNat_zero, Int.pow_zero, Int.mul_one]
+  · have hk : (eS - eD).toNat < (promote S).digits := by rcases hw with hw | hw; exact absurd hw he; exact hw
+    have hpw : PowOk S (eS - eD).toNat 2 := by right; simpa using hk
+    have hsc := scaleInt_up S hS (eS - eD) (by omega) 2 (by decide) hpw v hv (by rw [pw_two]; exact hfit)
+    rw [pw_two] at hsc
+    simp only [plain, Scaled.convert, he, ite_false, intOps, liftTV, hsc, Res.bind_ok, Res.pure_eq, Res.map, convert]
+
+/-- the native narrowing conversion divides by `2^k` toward zero -/
+theorem nat_down_eval (S D : IntTy) (eS eD : Int) (v : Int) (hS : 1 ≤ S.bits) (h : eS < eD)
+    (hk : (eD - eS).toNat < (promote S).digits) (hv : S.InRange v) :
+    scaledToScaled .nat S eS D eD v = .ok (D, D.wrap (v.tdiv (2^(eD - eS).toNat))) := by
+  have hne : ¬ eS = eD := by omega
+  have e : (-(eS - eD)).toNat = (eD - eS).toNat := by congr 1; omega
+  have hw : PowFits S (-(eS - eD)).toNat 2 := by
+    unfold PowFits; rw [pw_two, e]; exact two_pow_inRange hk
+  have hsc := scaleInt_down S hS (eS - eD) (by omega) 2 (by decide) hw v hv
+  rw [pw_two, e] at hsc
+  rw [nat_eq_plain]
+  simp only [plain, Scaled.convert, hne, ite_false, intOps, liftTV, hsc, Res.bind_ok, Res.pure_eq, Res.map, convert]
+
+end Cnl.RoundCvtP
